@@ -8,9 +8,7 @@ CLAIMED = {}
 
 NOT_APPLICABLE = {
     'C01': 'exactly-once across central queue, rings and steal rings under all interleavings is a whole-system schedule property over third-party moodycamel code, `std::thread` and lambdas; no per-function contract expresses it and the pool bodies are outside the extractable subset.',
-    'C02': 'check not built yet (contracts designed in DESIGN.md section 5, proof not closed in this framework yet)',
     'C03': 'resize racing the ring fast path is a multi-thread interleaving property (stale `numRings_` between two loads in different functions); needs a schedule explorer, not contracts.',
-    'C04': '`ConcurrentTaskSet::schedule/schedulePlaced` second inline path lacks `canceled()` | cancelled set on an overloaded pool | return without running when cancelled | **run**: body executed inline after `cancel()` on a 1-thread pool with load multiplier 1 and 4 blocked tasks',
     'C05': 'check not built yet (contracts designed in DESIGN.md section 5, proof not closed in this framework yet)',
     'C06': 'deadlock freedom under nested waits is liveness over all programs; contracts here carry no termination-under-scheduling argument.',
     'C07': 'wake latency without the backstop depends on which futex waiter the kernel picks; timing/liveness, outside deductive reach.',
@@ -314,3 +312,28 @@ CLAIMED['C18'] = dict(
          "RMW axiom (one CAS winner) + 'never back to kNotStarted' proved here. CompletionEventImpl::notify/wait are used through their C21 contracts. Result identity, reference counting / dealloc, "
          "and termination of the weak-CAS retry loop are NOT decided.",
     technique="CBMC DFCC function + loop contracts, rely/guarantee via interference before each atomic macro, ownership ghost for the claimant")
+
+CLAIMED['C04'] = dict(
+    category='proof',
+    text="Invocation-log contracts (CBMC DFCC) on the extracted bodies of every path that can start a task body: the packaged-task lambdas of packageTask / packageTaskNoIncrement, "
+         "TaskSet::schedule, ConcurrentTaskSet::schedule and schedulePlaced (for every value of the load / placement predicates and skipRecheck), scheduleBulkImpl and scheduleBulkImplPlaced "
+         "(loop contracts), plus cancel / cancelChildren (loop contract over the child list), the parent check of the TaskSetBase constructor and testAndResetException. With canceled_ set "
+         "before the call: no schedule path invokes the functor, neither inline on the caller nor through a packaged task that the pool runs at once; a packaged task that finds the set "
+         "cancelled skips the body but still lowers the outstanding count exactly once (release) and keeps the task-set stack balanced, and one that does not runs the body exactly once. "
+         "cancel() leaves the set cancelled and calls cancel() on every registered child whatever the previous state of the flag; a set created under a cancelled parent starts cancelled; "
+         "wait()'s testAndResetException reports the flag (acquire).",
+    note="The genuine defect this check found on the pinned tree was repaired (fix: ecabe38): ConcurrentTaskSet::schedule / schedulePlaced ran the functor inline on an overloaded pool after "
+         "cancel() (50 of 50 bodies started in the native replay). canceled_ is assumed monotone during an operation; load predicates are arbitrary booleans; tagged pool entry points only enqueue "
+         "(C47); that the pool runs every queued packaged task is C01. Futures / when_all continuations registered with a set are not under contract.",
+    technique="CBMC DFCC function + loop contracts over extracted bodies and lambda bodies with an invocation-log ghost; callee bodies by contract replacement")
+
+CLAIMED['C02'] = dict(
+    category='proof',
+    text="Credit ledger on outstandingTaskCount_ plus the wait loops, by CBMC DFCC contracts on the extracted code: packageTask raises the count (acquire) before the packaged task exists; "
+         "every hand-over of a packaged task to the pool in TaskSet::schedule, ConcurrentTaskSet::schedule / schedulePlaced, scheduleBulkImpl and scheduleBulkImplPlaced (loop contracts) is "
+         "covered by a credit raised beforehand, and nothing is credited in excess; each packaged task body lowers the count exactly once (release), after the user body or its skip, and runs "
+         "a non-cancelled body exactly once; TaskSet::wait and ConcurrentTaskSet::wait return only after an acquire load of the count that returned zero, and tryWait returns true only then "
+         "(partial-correctness loop contracts on every spin loop).",
+    note="Proved RELATIVE to C01 (the pool runs every packaged task handed to it exactly once - assumed) and with the Future decrement-after-ready obligation proved under C18. Termination of "
+         "the wait loops (progress) is not decided. Same spec file and extraction as C04. Destructors call wait() (checked by reading).",
+    technique="CBMC DFCC function + loop contracts over extracted bodies with a credit-ledger ghost")
